@@ -589,7 +589,7 @@ def long_case_(seed, k, tier, very=False):
     r = rng_for(seed, "c08", "very-long" if very else "long", k)
     n = long_rows(r)
     if very:
-        n = r.randrange(10001, 13001 if tier == "quick" else 40001)
+        n = r.randrange(10001, 13001 if tier == "quick" else 25001)
         n += 1 if n % 1024 == 0 else 0
     df = long_frame(r, n)
     if very:
@@ -920,7 +920,7 @@ def explore(tier, seed, res=None, replay=None):
     # very long frames (more than 10 000 rows) with transforms that fit parameters to the column
     for k in ([] if replay is not None and not replay.get("very_long") else
               [replay["seed_path"]] if replay is not None else
-              range(2 if tier == "quick" else len(VERY_LONG) * 2)):
+              range(2 if tier == "quick" else len(VERY_LONG))):
         if replay is None and tier == "quick":
             k = (k * 3 + seed) % len(VERY_LONG)
         case, pairs, meta, failures, err = long_case(seed, k, tier, very=True)
